@@ -168,6 +168,9 @@ def run_v(engine_v, repo, prog, pid):
         if u in set(prog.get("soft_units", [])):
             # a sub-claim that rests on this unit is no longer established; the property's main claim does not depend on it
             o["undecided"].append("sub-claim not re-established after a change of %s (%s): %s" % (u, prog.get("soft_reason", "see DESIGN"), f["obligation"]))
+        elif u in units and any(fi.get("unit") == u and fi.get("r11") for fi in r.get("funcs", [])):
+            # the contract text was rewritten along inferred renames (R11): a failure may be a wrong inference, never report it
+            o["undecided"].append("%s: locals were renamed and the contract was rewritten along the inferred renames (R11); the failed obligation %s is not reported as a finding" % (u, f["obligation"]))
         elif u in units and any(fi.get("unit") == u and fi.get("closures") for fi in r.get("funcs", [])):
             o["undecided"].append("%s now contains a closure whose effect Verus does not infer (argument of map / and_then / fold ...): the failed obligation %s is a tool limit, not a finding" % (u, f["obligation"]))
         elif u in units and not (prog.get("exclude") and re.search(prog["exclude"], f["obligation"])):
